@@ -149,13 +149,38 @@ def run(ck: Check) -> int:
                 try:
                     with common.time_limit(5):
                         rs = G.glob(p, flags=fl, root_dir=tmp)
-                        rb = G.glob(e(p), flags=fl, root_dir=os.fsencode(tmp))
                 except common.CallTimeout:
                     continue
                 except Exception:  # noqa: BLE001
-                    continue
-                if [os.fsencode(x) for x in rs] != rb:
-                    ck.report(Failing('glob(bytes root) is not the encoded glob(str root), same order', {'api': 'glob', 'pattern': p, 'flags': fl}, rs, rb), None)
+                    continue          # the str call itself is refused (pattern limit, syntax): nothing to compare
+                # the bytes twin through every way of naming the root (root_dir, dir_fd, the working directory): the encoded str
+                # result, same order; an exception where the str call answered is a difference (added after D36: os.scandir on
+                # a descriptor yields str names, glob(b'*.txt', dir_fd=fd) raised TypeError and glob(b'x.txt', dir_fd=fd) was [])
+                want = [os.fsencode(x) for x in rs]
+                fd = os.open(tmp, os.O_RDONLY)
+                old = os.getcwd()
+                try:
+                    for how, call in (('root_dir', lambda: G.glob(e(p), flags=fl, root_dir=os.fsencode(tmp))),
+                                      ('dir_fd', lambda: G.glob(e(p), flags=fl, dir_fd=fd)),
+                                      ('cwd', lambda: G.glob(e(p), flags=fl)),
+                                      ('str dir_fd', lambda: [os.fsencode(x) for x in G.glob(p, flags=fl, dir_fd=fd)])):
+                        sr.evaluations += 1
+                        try:
+                            if how == 'cwd':
+                                os.chdir(tmp)
+                            with common.time_limit(5):
+                                rb = call()
+                        except common.CallTimeout:
+                            continue
+                        except Exception as ex:  # noqa: BLE001
+                            rb = f'{type(ex).__name__}: {ex}'
+                        finally:
+                            os.chdir(old)
+                        if rb != want:
+                            ck.report(Failing(f'glob(bytes pattern, root given as {how}) is not the encoded glob(str root), same order',
+                                              {'api': 'glob', 'pattern': p, 'flags': fl, 'root': how}, rs, rb if isinstance(rb, str) else [repr(x) for x in rb]), None)
+                finally:
+                    os.close(fd)
             for fp, ep in [('*.txt', None), ('*', 'a'), ('*.txt|*.py', 'b'), ('', '.h'), (None, None), (None, 'a'), ('!*.txt', None)]:
                 for wfl in (WM.RECURSIVE, WM.RECURSIVE | WM.HIDDEN, WM.RECURSIVE | WM.FILEPATHNAME | WM.DIRPATHNAME):
                     sr.evaluations += 1
@@ -163,6 +188,21 @@ def run(ck: Check) -> int:
                     rb = WM.WcMatch(os.fsencode(tmp), e(fp) if fp is not None else None, e(ep) if ep is not None else None, wfl).match()
                     if [os.fsencode(x) for x in rs] != rb:
                         ck.report(Failing('WcMatch(bytes root) is not the encoded WcMatch(str root)', {'api': 'WcMatch', 'pattern': fp, 'exclude': ep, 'flags': wfl}, rs, rb), None)
+            # WcMatch: a root of one type with a file or folder-exclude pattern of the other type raises TypeError rather than returning an
+            # answer (added after D37: the TypeError of the first comparison was swallowed by the walk's error handling, so
+            # WcMatch(b'.', '*.txt').match() was [] and an exclude pattern of the other type excluded nothing)
+            for rt, fp, ep in [(os.fsencode(tmp), '*.txt', None), (tmp, b'*.txt', None), (os.fsencode(tmp), b'*.txt', 'a'), (tmp, '*.txt', b'a'),
+                               (os.fsencode(tmp), '', None), (tmp, b'', None), (os.fsencode(tmp), None, 'a'), (tmp, None, b'a'),
+                               (os.fsencode(tmp), '*.txt|*.py', b'a'), (tmp, b'*', '.h')]:
+                for wfl in (WM.RECURSIVE, WM.RECURSIVE | WM.HIDDEN, WM.RECURSIVE | WM.FILEPATHNAME | WM.DIRPATHNAME, 0):
+                    sr.evaluations += 1
+                    try:
+                        out = WM.WcMatch(rt, fp, ep, wfl).match()
+                        ck.report(Failing(f'WcMatch: a {type(rt).__name__} root with file pattern {fp!r} / exclude pattern {ep!r} returned an answer',
+                                          {'api': 'WcMatch', 'root_type': type(rt).__name__, 'pattern': repr(fp), 'exclude': repr(ep), 'flags': wfl},
+                                          'TypeError', repr(out)[:200]), None)
+                    except TypeError:
+                        pass
             # REALPATH: name/pattern of one type with a root of the other type raises TypeError for EVERY root value, the empty
             # string included (added after seeded change C18e: `root_dir or '.'` replaced an empty root of the wrong type)
             old_cwd = os.getcwd()
@@ -223,7 +263,8 @@ def run(ck: Check) -> int:
             shutil.rmtree(tmp, ignore_errors=True)
         sr.note = ('translate/compile/match/filter/escape on p and encode(p) for fnmatch and glob; mixed types raise TypeError (also a '
                    'root_dir of the other type under REALPATH, empty root included); glob on a tree with non-ASCII byte names; '
-                   'bytes 0x80-0xff vs Latin-1 chars against bracket/POSIX forms; glob and WcMatch on str vs bytes roots (same order)')
+                   'bytes 0x80-0xff vs Latin-1 chars against bracket/POSIX forms; glob and WcMatch on str vs bytes roots (same order), the bytes glob '
+                   'through root_dir / dir_fd / cwd; WcMatch with root and patterns of different types raises TypeError')
     ck.search('bytes-vs-str-api', s_search)
     if drv:
         drv.close()
